@@ -55,3 +55,27 @@ def seq_filter(f, xs):
 
 def seq_flatmap(f, xs):
     return [y for x in xs for y in f(x)]
+
+
+def lexer_flags(G, name="lx", **fixed):
+    """the eleven context attributes the token-typing functions keep on self.lexer"""
+    d = {}
+    for f in ("is_table", "sequence", "columns_def", "after_columns", "check", "is_alter", "is_like"):
+        d[f] = fixed[f] if f in fixed else G.bool("%s.%s" % (name, f))
+    d["last_token"] = fixed["last_token"] if "last_token" in fixed else G.str(name + ".last_token", r"[A-Z_]*")
+    if "last_par" in fixed:
+        d["last_par"] = fixed["last_par"]
+    else:
+        d["last_par"] = [False, "LP", "RP"][G.choice(name + ".last_par", 3)]
+    d["lp_open"] = fixed["lp_open"] if "lp_open" in fixed else G.int(name + ".lp_open", 0)
+    d["lt_open"] = fixed["lt_open"] if "lt_open" in fixed else G.int(name + ".lt_open", 0)
+    return d
+
+
+def strip_one_pair(v):
+    """the identifier without its ONE pair of outer delimiters (back-ticks, double quotes, square brackets);
+    a delimited identifier has at least one character between its delimiters"""
+    for a, b in (("`", "`"), ('"', '"'), ("[", "]")):
+        if len(v) > 2 and v.startswith(a) and v.endswith(b):
+            return v[1:-1]
+    return v
